@@ -7,6 +7,7 @@
  *         2 backlog-2 interleaving           3 like 0 with get_status polled between calls
  *         4 submit-all then destroy          5 submit-all, dequeue one, destroy
  *         6 submit half, dequeue all, submit rest, dequeue all (recycling / safe_done path)
+ *         7 pool creation with pthread_create failing for worker <fail_pos>: must return NULL, never hang
  */
 #include "lib/util/src/threadpool.c"
 
@@ -177,6 +178,16 @@ int harness_main(int argc, char **argv)
 #endif
 	);
 
+#ifndef VS_FREE_RUNNING
+	if (SHAPE == 7) {
+		/* creation failure: pthread_create for worker F (0-based) fails; the call must return NULL under every interleaving with the workers already started */
+		vs_fail_create_at = F + 1;
+		thread_pool_t *q = thread_pool_create((size_t)W, worker_cb);
+		if (q != NULL) vs_fail(VS_ORACLE, "thread_pool_create succeeded although creating worker %d failed", F);
+		vs_result("create-failed-cleanly");
+		return 0;
+	}
+#endif
 	thread_pool_t *p = thread_pool_create((size_t)W, worker_cb);
 	if (p == NULL) vs_fail(VS_ORACLE, "thread_pool_create failed");
 	g_pool = (thread_pool_impl_t *)p;
